@@ -302,7 +302,7 @@ impl Drop for PatchGuard {
 /// The caller must ensure that `func` points to a valid, patchable code region.
 #[cfg(not(target_os = "macos"))]
 pub(crate) unsafe fn patch_function(func: *mut u8, patch: &[u8]) {
-    make_memory_writable_and_executable(func);
+    make_memory_writable_and_executable(func, patch.len());
 
     inject_asm_code(patch, func);
 }
@@ -373,26 +373,35 @@ pub(crate) unsafe fn patch_function(func: *mut u8, patch: &[u8]) {
 // MacOS forces memory to be writable or executable but not both. So we don't need an
 // implementation for it.
 #[cfg(not(target_os = "macos"))]
-unsafe fn make_memory_writable_and_executable(func: *mut u8) {
+unsafe fn make_memory_writable_and_executable(func: *mut u8, len: usize) {
     #[cfg(target_os = "linux")]
     {
-        make_memory_writable_and_executable_linux(func);
+        make_memory_writable_and_executable_linux(func, len);
     }
 
     #[cfg(target_os = "windows")]
     {
-        make_memory_writable_and_executable_windows(func);
+        make_memory_writable_and_executable_windows(func, len);
     }
 }
 
+/// Size of the page-aligned region that covers `len` bytes starting at `addr`.
+/// The patched bytes may straddle a page boundary, so more than one page may be needed.
+#[cfg(not(target_os = "macos"))]
+fn protected_region_size(addr: usize, len: usize, page_size: usize) -> usize {
+    let page_start = addr & !(page_size - 1);
+    let page_end = (addr + len.max(1) + page_size - 1) & !(page_size - 1);
+    page_end - page_start
+}
+
 #[cfg(target_os = "linux")]
-unsafe fn make_memory_writable_and_executable_linux(func: *mut u8) {
+unsafe fn make_memory_writable_and_executable_linux(func: *mut u8, len: usize) {
     let page_size = sysconf(_SC_PAGESIZE) as usize;
     let addr = func as usize;
     let page_start = addr & !(page_size - 1);
     if libc::mprotect(
         page_start as *mut c_void,
-        page_size,
+        protected_region_size(addr, len, page_size),
         PROT_READ | PROT_WRITE | PROT_EXEC,
     ) != 0
     {
@@ -401,7 +410,7 @@ unsafe fn make_memory_writable_and_executable_linux(func: *mut u8) {
 }
 
 #[cfg(target_os = "windows")]
-unsafe fn make_memory_writable_and_executable_windows(func: *const u8) {
+unsafe fn make_memory_writable_and_executable_windows(func: *const u8, len: usize) {
     let page_size = get_page_size();
     let addr = func as usize;
     let page_start = addr & !(page_size - 1);
@@ -410,7 +419,7 @@ unsafe fn make_memory_writable_and_executable_windows(func: *const u8) {
 
     let result = VirtualProtect(
         page_start as *mut c_void,
-        page_size,
+        protected_region_size(addr, len, page_size),
         PAGE_EXECUTE_READWRITE,
         &mut old_protect,
     );
